@@ -8,6 +8,7 @@
   (insertion) order, same class / maxlen / factory / metadata, identical leaves at the same positions".
 -/
 import OptreeModel.Lemmas.Roundtrip
+import OptreeModel.Lemmas.Replace
 
 namespace Optree
 
@@ -180,5 +181,89 @@ theorem C01_leaf_count (cfg : Cfg) (hreg : cfg.reg.OK) (t : PyObj) (hwf : t.wf =
   have := unflattenGo_leaf_count sp.nodes ls [] t hrt ls' [] rfl
   rw [hs.2]
   exact this
+
+
+/-! ### replacement leaves -/
+
+/-- **Replacement leaves.**  Unflattening the treespec with *any* `n` leaf-typed objects (`LeafObj`: objects
+that flatten to themselves — opaque objects, `None` under `none_is_leaf`, instances of unregistered
+classes, anything the predicate accepts) builds a tree that flattens back to exactly those `n` objects, in
+order, and to the identical treespec.  `PredOnLeaves` is the documented contract of `is_leaf`: the predicate
+decides among leaf-typed objects and does not fire on the containers being rebuilt (trivially true without
+a predicate); its necessity is shown by `C01_replace_needs_stable_predicate`.
+Mutual structural induction (Lemmas/Replace.lean); dict-kind nodes: the rebuilt dict keeps the original
+insertion order while its items are visited in the same sorted order as before. -/
+theorem C01_replace_leaves (cfg : Cfg) (hreg : cfg.reg.OK) (hst : PredOnLeaves cfg) (t : PyObj)
+    (hwf : t.wf = true) (ls : List PyObj) (sp : Spec) (h : flatten cfg t = .ok (ls, sp))
+    (ls' : List PyObj) (hl : ls'.length = ls.length) (hleaf : ∀ x ∈ ls', LeafObj cfg x) :
+    ∃ t', unflatten sp ls' = .ok t' ∧ flatten cfg t' = .ok (ls', sp) := by
+  have hs := (C01_flatten_sane cfg t ls sp h).1
+  unfold flatten at h
+  simp only at h
+  split at h
+  · simp at h
+  · rename_i out hout
+    simp only [Except.ok.injEq, Prod.mk.injEq] at h
+    obtain ⟨hls, hsp⟩ := h
+    subst hls
+    obtain ⟨t', rt, fl⟩ := robj cfg hreg hst _ t hwf 0 out hout ls' hl hleaf
+    refine ⟨t', ?_, ?_⟩
+    · unfold unflatten
+      simp only [hs, Bool.not_true, Bool.false_eq_true, if_false]
+      have hn : sp.nodes = out.nodes := by rw [← hsp]
+      rw [hn]
+      have := rt [] [] []
+      simpa [withLeaves, unflattenGo] using this
+    · unfold flatten
+      simp only [fl, withLeaves]
+      rw [← hsp]
+
+/-- without a predicate the contract holds outright -/
+theorem C01_replace_leaves_nopred (cfg : Cfg) (hreg : cfg.reg.OK) (hp : cfg.pred = Option.none) (t : PyObj)
+    (hwf : t.wf = true) (ls : List PyObj) (sp : Spec) (h : flatten cfg t = .ok (ls, sp))
+    (ls' : List PyObj) (hl : ls'.length = ls.length) (hleaf : ∀ x ∈ ls', LeafObj cfg x) :
+    ∃ t', unflatten sp ls' = .ok t' ∧ flatten cfg t' = .ok (ls', sp) :=
+  C01_replace_leaves cfg hreg (predOnLeaves_of_none cfg hp) t hwf ls sp h ls' hl hleaf
+
+/-- opaque objects are leaf-typed when there is no predicate -/
+theorem C01_leafObj_leaf (cfg : Cfg) (hp : cfg.pred = Option.none) (ty uid : Nat) :
+    LeafObj cfg (.leaf ty uid) := by
+  intro s d hd
+  rw [flattenGo]
+  simp [hd, Cfg.evalPred, hp]
+
+/-- the hypothesis on the predicate cannot be dropped: with a predicate that accepts every 1-tuple as a leaf,
+`(x,)` … no: a predicate that fires on the *rebuilt* container but not on the original one.  Here the
+predicate fires on tuples whose first item is the opaque object 7: the tree `(1,)` flattens to one leaf, and
+after replacing that leaf by object 7 the rebuilt tuple is itself a leaf, so the re-flatten returns the tuple,
+not the replacement object. -/
+theorem C01_replace_needs_stable_predicate :
+    let pred : PyObj → Except Err Bool := fun x =>
+      match x with
+      | .tuple (.leaf 0 7 :: _) => .ok true
+      | _ => .ok false
+    let cfg : Cfg := { pred := some pred }
+    let t := PyObj.tuple [.leaf 0 1]
+    ∃ ls sp, flatten cfg t = .ok (ls, sp) ∧ ls.length = 1 ∧
+      ∃ t', unflatten sp [.leaf 0 7] = .ok t' ∧
+        (match flatten cfg t' with
+         | .ok (ls'', _) => ls'' == [PyObj.leaf 0 7]
+         | .error _ => false) = false := by
+  refine ⟨[.leaf 0 1], _, rfl, rfl, .tuple [.leaf 0 7], rfl, ?_⟩
+  decide
+
+/-- non-vacuity: the demo tree of the round trip (all hypotheses hold: registry, well-formedness, no
+predicate), eight fresh opaque replacement leaves: the rebuilt tree flattens to exactly those -/
+example :
+    (match flatten { reg := C01_demoReg } C01_demoTree with
+     | .ok (ls, sp) =>
+        let ls' := (List.range ls.length).map fun i => PyObj.leaf 3 (100 + i)
+        (match unflatten sp ls' with
+         | .ok t' =>
+            (match flatten { reg := C01_demoReg } t' with
+             | .ok (ls'', sp') => ls'' == ls' && sp' == sp && !(t' == C01_demoTree)
+             | .error _ => false)
+         | .error _ => false)
+     | .error _ => false) = true := by decide
 
 end Optree
